@@ -110,7 +110,7 @@ var _ rpc.Resources
 //@   assert[C02] ref.sub.Dispose#1: ref.state == gcStateDelete
 //@   assert[C02] ref.sub.Unsend#1: ref.state == gcStateUnsend
 //@   ensures[C08] forall x *Subscription :: x.direct == old(x.direct)
-//@   assigns Subscription.direct, Subscription.indirect, Subscription.indirectsent, Subscription.state, Subscription.readyCallbacks,
+//@   assigns Subscription.direct, Subscription.indirect, Subscription.indirectsent, Subscription.state, Subscription.queueFlag, Subscription.readyCallbacks,
 //@       Subscription.eventQueue, Subscription.throttle, Subscription.resourceSub, Subscription.refs, elems(c.subs), pkgstate(rescache), cachecontainers(), alloc()
 //@   safety[C15]
 //@   loop 1 let R = refs
@@ -185,7 +185,7 @@ var _ rpc.Resources
 //@       x.readyCallbacks == old(x.readyCallbacks) && x.eventQueue == old(x.eventQueue) && x.throttle == old(x.throttle))
 //@   ensures !tryDelete ==> (forall e *rescache.EventSubscription :: e.queue == old(e.queue))
 //@   ensures !tryDelete ==> (forall m map[string]*Subscription, r string :: has(m, r) == old(has(m, r)) && m[r] == old(m[r]))
-//@   assigns s.direct, s.indirect, s.indirectsent, Subscription.state, Subscription.indirectsent, Subscription.indirect, Subscription.readyCallbacks,
+//@   assigns s.direct, s.indirect, s.indirectsent, Subscription.state, Subscription.indirectsent, Subscription.indirect, Subscription.queueFlag, Subscription.readyCallbacks,
 //@       Subscription.eventQueue, Subscription.throttle, Subscription.resourceSub, Subscription.refs, elems(c.subs), pkgstate(rescache), cachecontainers()
 //@   safety[C15]
 
@@ -719,7 +719,7 @@ var _ rpc.Resources
 //@   ensures[C02] forall a string :: has(s.refs, a) && s.refs[a].sub != s && old(s.refs[a].sub.state) == stateSent && old(s.refs[a].sub.indirectsent) > 0 ==>
 //@       s.refs[a].sub.indirectsent == old(s.refs[a].sub.indirectsent) - 1
 //@   ensures[C02] forall x *Subscription :: x != s ==> x.state == old(x.state)
-//@   assigns Subscription.state, Subscription.indirectsent
+//@   assigns Subscription.state, Subscription.indirectsent, s.queueFlag
 //@   safety[C15]
 //@   loop 1 invariant s.state == stateReady && s.indirectsent == 0 && s.refs == old(s.refs)
 //@   loop 1 invariant forall x *Subscription :: x != s ==> x.state == old(x.state)
@@ -821,7 +821,7 @@ var _ rpc.Resources
 //@   ensures[C11] forall m map[string]*Subscription, r string :: has(m, r) == old(has(m, r)) && m[r] == old(m[r])
 //@   ensures[C11] forall e *rescache.EventSubscription :: e.queue == old(e.queue)
 //@   ensures[C11] callcount("ResourceSubscription.Unsubscribe") == old(callcount("ResourceSubscription.Unsubscribe"))
-//@   assigns Subscription.direct, Subscription.indirect, Subscription.indirectsent, Subscription.state, Subscription.readyCallbacks,
+//@   assigns Subscription.direct, Subscription.indirect, Subscription.indirectsent, Subscription.state, Subscription.queueFlag, Subscription.readyCallbacks,
 //@       Subscription.eventQueue, Subscription.throttle, Subscription.resourceSub, Subscription.refs, elems(s.c.(*wsConn).subs), pkgstate(rescache), cachecontainers()
 //@   assert[C02] s.c.Unsubscribe#1: !arg1 && arg2 == sent && arg3 == 1 && !arg4
 //@   safety[C15]
@@ -849,7 +849,7 @@ var _ rpc.Resources
 //@   ensures[C11] forall k *wsConn :: k.disposing == old(k.disposing) && k.subs == old(k.subs)
 //@   ensures[C11] forall m map[string]*Subscription, r string :: has(m, r) == old(has(m, r)) && m[r] == old(m[r])
 //@   ensures[C08,C11] forall x *Subscription :: x.direct == old(x.direct)
-//@   assigns Subscription.direct, Subscription.indirect, Subscription.indirectsent, Subscription.state, Subscription.readyCallbacks,
+//@   assigns Subscription.direct, Subscription.indirect, Subscription.indirectsent, Subscription.state, Subscription.queueFlag, Subscription.readyCallbacks,
 //@       Subscription.eventQueue, Subscription.throttle, Subscription.resourceSub, Subscription.refs, elems(s.c.(*wsConn).subs), pkgstate(rescache), cachecontainers()
 // (references are given back with the subscription's sent state as it was before the disposal:
 // a resource that was sent takes one sent-parent count from each referenced resource)
@@ -865,7 +865,7 @@ var _ rpc.Resources
 //@   ensures[C11] old(c.disposing) ==> c.subs == old(c.subs) && callcount("RemoveConn") == old(callcount("RemoveConn")) && callcount("Dispose") == old(callcount("Dispose"))
 //@   ensures[C11] !old(c.disposing) ==> c.subs == nil && callcount("RemoveConn") == old(callcount("RemoveConn")) + 1
 //@   ensures[C11] !old(c.disposing) ==> (forall r string :: old(has(c.subs, r)) ==> old(c.subs[r]).state == stateDisposed && old(c.subs[r]).resourceSub == nil)
-//@   assigns c.disposing, c.subs, elemsof(map[string]*wsConn), Subscription.direct, Subscription.indirect, Subscription.indirectsent, Subscription.state, Subscription.readyCallbacks,
+//@   assigns c.disposing, c.subs, elemsof(map[string]*wsConn), Subscription.direct, Subscription.indirect, Subscription.indirectsent, Subscription.state, Subscription.queueFlag, Subscription.readyCallbacks,
 //@       Subscription.eventQueue, Subscription.throttle, Subscription.resourceSub, Subscription.refs, elemsof(map[string]*Subscription), elemsof(map[string]rescache.Conn), pkgstate(rescache), cachecontainers()
 //@   safety[C15]
 //@   loop 1 invariant c.disposing && c.subs == nil && callcount("RemoveConn") == old(callcount("RemoveConn")) + 1 && callcount("Dispose") == old(callcount("Dispose")) + iters1
@@ -1100,7 +1100,7 @@ var _ rpc.Resources
 //@   ensures[C02] old(s.refs[rid].count) == 1 ==> !has(s.refs, rid)
 //@   ensures[C02] old(s.refs[rid].count) == 1 && !old(s.c.(*wsConn).disposing) ==> callcount("removeCount") == old(callcount("removeCount")) + 1
 //@   assert[C02] s.c.Unsubscribe#1: arg0 == old(s.refs[rid].sub) && !arg1 && arg2 == (old(s.state) == stateSent) && arg3 == 1 && arg4
-//@   assigns reference.count, elemsof(map[string]*reference), Subscription.direct, Subscription.state, Subscription.indirectsent, Subscription.indirect, Subscription.readyCallbacks,
+//@   assigns reference.count, elemsof(map[string]*reference), Subscription.direct, Subscription.state, Subscription.indirectsent, Subscription.indirect, Subscription.queueFlag, Subscription.readyCallbacks,
 //@       Subscription.eventQueue, Subscription.throttle, Subscription.resourceSub, Subscription.refs, elems(s.c.(*wsConn).subs), pkgstate(rescache), cachecontainers()
 //@   safety[C15]
 
@@ -1296,7 +1296,7 @@ var _ rpc.Resources
 //@   ensures[C06,C08] old(s.direct) > 0 && !old(s.c.(*wsConn).disposing) ==> s.direct == 0
 //@   ensures[C06,C08] old(s.direct) > 0 && old(s.c.(*wsConn).ws) != nil ==> wsframes == old(wsframes) + 1
 //@   ensures[C06,C08] old(s.direct) <= 0 ==> wsframes == old(wsframes) && (forall x *Subscription :: x.direct == old(x.direct))
-//@   assigns wsframes, Subscription.direct, Subscription.state, Subscription.indirectsent, Subscription.indirect, Subscription.readyCallbacks,
+//@   assigns wsframes, Subscription.direct, Subscription.state, Subscription.indirectsent, Subscription.indirect, Subscription.queueFlag, Subscription.readyCallbacks,
 //@       Subscription.eventQueue, Subscription.throttle, Subscription.resourceSub, Subscription.refs, elems(s.c.(*wsConn).subs), pkgstate(rescache), cachecontainers()
 //@   assert[C10] rpc.NewEvent#1: arg0 == s.rid && arg1 == "unsubscribe"
 //@   safety[C15]
@@ -1308,7 +1308,7 @@ var _ rpc.Resources
 //@   ensures[C06] !old(a.Error == nil && a.Get) && old(s.direct) > 0 && old(s.c.(*wsConn).ws) != nil ==> wsframes == old(wsframes) + 1
 //@   ensures[C06] old(a.Error == nil && a.Get) ==> wsframes == old(wsframes) && (forall x *Subscription :: x.direct == old(x.direct))
 //@   ensures[C06] old(s.direct) <= 0 ==> wsframes == old(wsframes) && (forall x *Subscription :: x.direct == old(x.direct))
-//@   assigns wsframes, Subscription.direct, Subscription.state, Subscription.indirectsent, Subscription.indirect, Subscription.readyCallbacks,
+//@   assigns wsframes, Subscription.direct, Subscription.state, Subscription.indirectsent, Subscription.indirect, Subscription.queueFlag, Subscription.readyCallbacks,
 //@       Subscription.eventQueue, Subscription.throttle, Subscription.resourceSub, Subscription.refs, elems(s.c.(*wsConn).subs), pkgstate(rescache), cachecontainers()
 //@   safety[C15]
 
